@@ -330,7 +330,10 @@ def run(ctx, deep=False):
                 ctx.sample({"tree": u, "sqlite_text": L.compile_literal(e, "sqlite"), "reference": L.ref_sql(u), "rows": got[:5]})
         # ---- correspondence: rendering on every dialect
         w = " ".join(L.wire(u))
-        for d in L.DIALECTS:
+        # quick tier: the exhaustive pair trees are compiled on the three backends of the property;
+        # mariadb / default (same compilers with other flags) are covered by corpus + random trees
+        dls = L.DIALECTS if (src != "pairs" or ctx.tier == "thorough" or deep) else ("sqlite", "postgresql", "mysql")
+        for d in dls:
             cases.append({"u": u, "dialect": d})
             reqs.append("expr render %s %s" % (d, w))
             if not built:
@@ -342,7 +345,7 @@ def run(ctx, deep=False):
                     impl_out.append("compile-error:" + type(ex).__name__)
         # ---- sqlite grammar validation requests (text must be executable: no `?`)
         if built and not ({"isdistinct", "isnotdistinct"} & set(L.ops_of(u))):
-            for mask in (0, ctx.rng.getrandbits(10)):
+            for mask in ((0, ctx.rng.getrandbits(10)) if (src != "pairs" or ctx.tier == "thorough" or deep or ctx.rng.random() < 0.5) else (0,)):
                 gcases.append({"u": u, "mask": mask})
                 greqs.append("expr parsedrop %d sqlite %s" % (mask, w))
     if ctx.driver_ok():
